@@ -149,20 +149,27 @@ def export_cases(ctx, rng, n, tid0):
         ev = {"act": "Export", "exported": True, "refused": False, "same": True, "diff": [], "eb": eb, "yields": yl, "ices": chosen}
         try:
             with quiet():
-                net = Network(reacs, grain_model="hh93")
+                extra = {"ode_modifier": {"H": {"factors": ["-1.0e-17*nH"], "reactants": [["H"]]}}, } if k % 2 == 0 else {}
+                net = Network(reacs, grain_model="hh93", **extra)
                 rate_exprs(ctx, net, f"exp_{k}")        # the direct rendering must work at all (a dust model may not serve these reaction classes)
         except Exception:   # noqa
             continue
         try:
             with quiet():
                 net.export("proj", prefix=d, overwrite=True)
-        except Exception as e:   # noqa
-            ev["exported"], ev["err"] = False, f"{type(e).__name__}: {str(e)[:120]}"
+        except Exception as e:   # noqa   (a loud refusal to export is not a SILENT change of a rate law: allowed by the property)
+            ev["refused"], ev["err"] = True, f"export raised {type(e).__name__}: {str(e)[:120]}"
             out.append({"tid": tid0 + len(out) + 1, "net": [], "pr": [], "ev": [ev], "origin": "export"})
             continue
         proj = d / "proj"
         def snapshot():
             rates = {st["i"]: st["expr"] for st in creader.read_rates((proj / "src/naunet_rates.cpp").read_text())}
+            try:       # the right-hand side as multisets of terms (the order of the factors of a term carries no meaning)
+                mac = creader.parse_macros((proj / "include/naunet_macros.h").read_text())
+                fx = creader.read_fex((proj / "src/naunet_fex.cpp").read_text(), mac)["eqs"]
+                rates.update({f"ydot[{q}]": repr(sorted((sg, str(cf), tuple(sl)) for sg, cf, sl in terms)) for q, (terms, _w) in fx.items()})
+            except Exception as e:   # noqa
+                rates["ydot"] = f"unreadable: {type(e).__name__}"
             consts = dict(re.findall(r"\b(?:double|realtype)\s+(\w+)\s*=\s*([^;{]+);", creader.strip_comments((proj / "src/naunet_constants.cpp").read_text())))
             return rates, consts
         before = snapshot()
@@ -173,7 +180,11 @@ def export_cases(ctx, rng, n, tid0):
         else:
             after = snapshot()
             diff = []
-            for i2 in sorted(set(before[0]) | set(after[0])):
+            for i2 in sorted(set(before[0]) | set(after[0]), key=str):
+                if isinstance(i2, str):
+                    if before[0].get(i2) != after[0].get(i2):
+                        diff.append(f"{i2}: exported {before[0].get(i2, '-')[:150]}, re-rendered {after[0].get(i2, '-')[:150]}")
+                    continue
                 if i2 not in before[0] or i2 not in after[0] or same_value(before[0][i2], after[0][i2]) is False:
                     diff.append(f"k[{i2}]: exported {before[0].get(i2, '-')[:110]!r}, re-rendered {after[0].get(i2, '-')[:110]!r}")
             for c2 in sorted(set(before[1]) | set(after[1])):
@@ -204,12 +215,13 @@ def export_cases(ctx, rng, n, tid0):
                     ev2["refused"], ev2["err"] = True, (pr.stderr or pr.stdout)[-200:]
                 else:
                     after = snapshot()
-                    diff = [f"k[{i2}]: exported {before[0].get(i2, '-')[:110]!r}, re-rendered {after[0].get(i2, '-')[:110]!r}"
-                            for i2 in sorted(set(before[0]) | set(after[0]))
-                            if i2 not in before[0] or i2 not in after[0] or same_value(before[0][i2], after[0][i2]) is False]
+                    diff = [f"{i2}: exported {str(before[0].get(i2, '-'))[:110]!r}, re-rendered {str(after[0].get(i2, '-'))[:110]!r}"
+                            for i2 in sorted(set(before[0]) | set(after[0]), key=str)
+                            if i2 not in before[0] or i2 not in after[0] or
+                            ((before[0][i2] != after[0][i2]) if isinstance(i2, str) else (same_value(before[0][i2], after[0][i2]) is False))]
                     ev2["diff"], ev2["same"] = diff[:6], not diff
             except Exception as e:   # noqa
-                ev2["exported"], ev2["err"] = False, f"{type(e).__name__}: {str(e)[:120]}"
+                ev2["refused"], ev2["err"] = True, f"export raised {type(e).__name__}: {str(e)[:120]}"
             evs.append(ev2)
         out.append({"tid": tid0 + len(out) + 1, "net": [], "pr": [], "ev": evs, "origin": "export"})
     Species.reset()
@@ -233,6 +245,10 @@ def gas_table_cases():
         cases.append(("uclchem", dict(base, code=code, r=["CO", "He+"] if code == "MA" else ["CO"])))
     for code in (100, 101, 102, 110, 111, 120):
         cases.append(("naunet", dict(base, code=code)))
+    # two-body fits with a NEGATIVE gamma (33 such entries in RATE12) and with beta = gamma = 0
+    for fmt, code in (("kida", 3), ("umist", "NN"), ("leeds", 1), ("uclchem", "MA"), ("naunet", 100)):
+        cases.append((fmt, dict(base, code=code, c=-36.1, b=-0.5, a=2.5e-9 if fmt == "leeds" else 2.5e-10)))
+        cases.append((fmt, dict(base, code=code, c=0.0, b=0.0, a=2.5e-9 if fmt == "leeds" else 2.5e-10)))
     return cases
 
 
@@ -295,7 +311,7 @@ def main(ctx: Ctx) -> int:
     for fmt, rec in gas_table_cases():
         line, named, _ = F.encode(random.Random(1), fmt, dict(rec), "idx,R,R,R,P,P,P,P,P,Tmin,Tmax,rate") if False else (None, None, None)
         enc = {"kida": encoders.kida, "umist": encoders.umist, "leeds": encoders.leeds, "uclchem": encoders.uclchem, "naunet": encoders.native}[fmt]
-        f = ctx.sub("in") / f"table_{fmt}_{rec['code']}.txt"
+        f = ctx.sub("in") / f"table_{fmt}_{rec['code']}_{rec['c']}.txt"
         f.write_text(enc(rec) + "\n")
         try:
             nets.append((f"table {fmt}", Network(filelist=str(f), fileformats=fmt), [(fmt, rec["code"])]))
@@ -348,7 +364,7 @@ def main(ctx: Ctx) -> int:
             state["n3"] = Network(filelist=str(d / "f2.naunet"), fileformats="naunet")
             return obs_net(state["n3"])
         if step("Write1", w1)["ok"] and step("Read1", r1)["ok"]:
-            if ti % 2 == 1 and state["n2"].reaction_list:
+            if ti % 2 == 1 and state["n2"].reaction_list and not origin.startswith("table"):     # (the table cases all go on to the law comparison)
                 k = rng.randrange(len(state["n2"].reaction_list))
                 newa = rng.choice([9.87e-10, -1.5e-3, 4.0])
                 reidx = rng.random() < 0.5
